@@ -593,47 +593,9 @@ func c01eWorklist(c *Ctx) {
 		c.Bad(name+"/break-maps", c.W.FuncPos(fn), "cannot find the lookups of break (ScopeStatment) and continue (LoopStatment) targets")
 		return
 	}
-	c.Check(retMap != originMap, name+"/break-maps-distinct", c.W.FuncPos(fn), "break and continue read different tables", "break and continue read the same table")
 	ctorOf := map[string]string{"WhileStatement": "createWhileStatementChunks", "DoWhileStatement": "createDoWhileStatementChunks", "SwitchStatement": "createSwitchStatementChunks"}
-	nRet, nOrigin := 0, 0
-	instrs(fn, func(in ssa.Instruction) {
-		mu, ok := in.(*ssa.MapUpdate)
-		if !ok || (mu.Map != retMap && mu.Map != originMap) {
-			return
-		}
-		key := c.term(fn, mu.Key)
-		val := c.term(fn, mu.Value)
-		pos := c.W.Pos(mu.Pos())
-		typ := ""
-		for t := range ctorOf {
-			if strings.HasPrefix(key, "assert<*ast."+t+">(") && strings.HasSuffix(key, "#0") {
-				typ = t
-			}
-		}
-		if typ == "" {
-			c.Bad(name+"/break-table-key", pos, "break/continue table keyed by "+pretty(key)+", expected the loop/switch statement node being lowered")
-			return
-		}
-		ctor := "emitter." + ctorOf[typ] + "@0"
-		// the constructor must have been called on the same node
-		ctorFn := c.W.Func("emitter", ctorOf[typ])
-		sameNode := false
-		if ctorFn != nil {
-			for _, call := range callsToIn(fn, ctorFn) {
-				if c.term(fn, call.Common().Args[0]) == key && instrDominates(call, mu) {
-					sameNode = true
-				}
-			}
-		}
-		if mu.Map == retMap {
-			nRet++
-			c.Check(sameNode && val == ctor+"#2", name+"/break-target/"+typ, pos, "break target of the statement = return id reported by its constructor", "break target recorded for "+typ+" is "+pretty(val)+", expected "+ctor+"#2 (the statement's return id)")
-		} else {
-			nOrigin++
-			c.Check(sameNode && val == ctor+"#1.destChunkID", name+"/continue-target/"+typ, pos, "continue target of the statement = chunk the statement is entered at", "continue target recorded for "+typ+" is "+pretty(val)+", expected the destination of the jump returned by its constructor")
-		}
-	})
-	c.Check(nRet == 3 && nOrigin >= 2, name+"/break-table-writes", c.W.FuncPos(fn), "while, do-while and switch record their break target; loops record their continue target", fmt.Sprintf("found %d break-target and %d continue-target records, expected 3 and at least 2", nRet, nOrigin))
+	// a table is a map, or one field of a map of records
+	retField, originField := "", ""
 	// finalised chunks: id / returnID copies and branch behaviour of each arm
 	for _, ci := range c.chunkAllocs(fn) {
 		if !strings.Contains(ci.stmts, ".statements[:") {
@@ -669,12 +631,76 @@ func c01eWorklist(c *Ctx) {
 				what = "continue jumps to the recorded entry chunk of its loop"
 			}
 			want := c.term(fn, m) + "[assert<*ast." + role + ">(" + cur + ".statements[" + strings.TrimSuffix(strings.SplitN(ci.stmts, ".statements[:", 2)[1], "]") + "])#0" + field + "]#0"
+			if st, isRec := m.Type().Underlying().(*types.Map).Elem().Underlying().(*types.Struct); isRec && strings.HasPrefix(dest, want+".") {
+				for i := 0; i < st.NumFields(); i++ {
+					if dest == want+"."+st.Field(i).Name() {
+						want = dest
+						if role == "ContinueStatement" {
+							originField = st.Field(i).Name()
+						} else {
+							retField = st.Field(i).Name()
+						}
+					}
+				}
+			}
 			c.Check(dest == want, name+"/branch/"+role, pos, what, role+" arm jumps to "+pretty(dest)+", expected "+pretty(want))
 		}
 		if ci.retID != "-1" {
 			c.Check(stripLoopTags(ci.retID) == stripLoopTags(cur)+".returnID" || bb != "zero" && bb != "nil", name+"/returnID-copy/"+role, pos, "finalised chunk keeps the return id (or ends in a branch)", "finalised chunk without branch behaviour has return id "+pretty(ci.retID)+", expected "+pretty(cur)+".returnID")
 		}
 	}
+	c.Check(retMap != originMap || (retField != "" && originField != "" && retField != originField), name+"/break-maps-distinct", c.W.FuncPos(fn), "break and continue read different tables", "break and continue read the same table")
+	nRet, nOrigin := 0, 0
+	instrs(fn, func(in ssa.Instruction) {
+		mu, ok := in.(*ssa.MapUpdate)
+		if !ok || (mu.Map != retMap && mu.Map != originMap) {
+			return
+		}
+		key := c.term(fn, mu.Key)
+		val := c.term(fn, mu.Value)
+		pos := c.W.Pos(mu.Pos())
+		typ := ""
+		for t := range ctorOf {
+			if strings.HasPrefix(key, "assert<*ast."+t+">(") && strings.HasSuffix(key, "#0") {
+				typ = t
+			}
+		}
+		if typ == "" {
+			c.Bad(name+"/break-table-key", pos, "break/continue table keyed by "+pretty(key)+", expected the loop/switch statement node being lowered")
+			return
+		}
+		ctor := "emitter." + ctorOf[typ] + "@0"
+		// the constructor must have been called on the same node
+		ctorFn := c.W.Func("emitter", ctorOf[typ])
+		sameNode := false
+		if ctorFn != nil {
+			for _, call := range callsToIn(fn, ctorFn) {
+				if c.term(fn, call.Common().Args[0]) == key && instrDominates(call, mu) {
+					sameNode = true
+				}
+			}
+		}
+		if retField != "" || originField != "" {
+			_, f := c.withFields(fn, val)
+			if mu.Map == retMap && retField != "" {
+				nRet++
+				c.Check(sameNode && f != nil && f[retField] == ctor+"#2", name+"/break-target/"+typ, pos, "break target of the statement = return id reported by its constructor", "break target recorded for "+typ+" is "+pretty(f[retField])+", expected "+ctor+"#2 (the statement's return id)")
+			}
+			if mu.Map == originMap && originField != "" {
+				nOrigin++
+				c.Check(sameNode && f != nil && f[originField] == ctor+"#1.destChunkID", name+"/continue-target/"+typ, pos, "continue target of the statement = chunk the statement is entered at", "continue target recorded for "+typ+" is "+pretty(f[originField])+", expected the destination of the jump returned by its constructor")
+			}
+			return
+		}
+		if mu.Map == retMap {
+			nRet++
+			c.Check(sameNode && val == ctor+"#2", name+"/break-target/"+typ, pos, "break target of the statement = return id reported by its constructor", "break target recorded for "+typ+" is "+pretty(val)+", expected "+ctor+"#2 (the statement's return id)")
+		} else {
+			nOrigin++
+			c.Check(sameNode && val == ctor+"#1.destChunkID", name+"/continue-target/"+typ, pos, "continue target of the statement = chunk the statement is entered at", "continue target recorded for "+typ+" is "+pretty(val)+", expected the destination of the jump returned by its constructor")
+		}
+	})
+	c.Check(nRet == 3 && nOrigin >= 2, name+"/break-table-writes", c.W.FuncPos(fn), "while, do-while and switch record their break target; loops record their continue target", fmt.Sprintf("found %d break-target and %d continue-target records, expected 3 and at least 2", nRet, nOrigin))
 }
 
 var loopTagRe = regexpMust(`!L\d+`)
